@@ -236,6 +236,17 @@ ADDENDA4B = {
     "C15": "Compressed literals are emitted identically with dictionary compression on and off; the to_base model re-runs small bases after the sweep.",
     "C20": "The code page agrees position by position with its copies in static/main.js and documents/knowledge/yaml_to_js.py.",
 }
+# rules added in the fifth round (buggy feature additions)
+ADDENDA5 = {
+    "C08": "A documented-vectorising function decides nothing from its operands before the kind dispatch (no early return on emptiness or equality of the operands), with a reviewed table of the existing shortcuts.",
+    "C10": "What is stored as the global array (appended to / popped in place by other elements) is a fresh list, never the popped value itself.",
+    "C12": "A generator does not yield while bookkeeping entries it pushed are registered; a handler that swallows every exception around code that can run a Vyxal function and carries on must be able to cut all four lists back.",
+    "C14": "Any function outside the catalogue that hands a nested generator back as a LazyList must not run the same generator to the end on a path where the iterated argument can still be a lazy list.",
+    "C18": "Every structure class carrying an arity from a constructor parameter is constructed with an int, 'default' or None; transpile / transpile_ast / transpile_single add nothing to the code but producer results, constants and joins of them.",
+    "C19": "The input-handling statements of execute_vyxal outside every try apply only operations that cannot raise on strings (known finding: the f flag opens the first input line as a host file there).",
+}
+for _k, _v in ADDENDA5.items():
+    ADDENDA4B[_k] = (ADDENDA4B.get(_k, "") + " " + _v).strip()
 for _k, _v in ADDENDA4B.items():
     ADDENDA4[_k] = (ADDENDA4.get(_k, "") + " " + _v).strip()
 for _k, _v in ADDENDA4.items():
